@@ -16,6 +16,14 @@ EXIT_HELD, EXIT_VIOLATED, EXIT_INCONCLUSIVE = 0, 1, 2
 COVERAGE = {}
 
 
+def dump_coverage():
+    """VERIF_COVDUMP=<file>: all lines of the package reached by this run (tools/coverage_union.py)."""
+    path = os.environ.get("VERIF_COVDUMP")
+    if path:
+        with open(path, "w") as fh:
+            json.dump({k: sorted(v) for k, v in COVERAGE.items()}, fh)
+
+
 def anchor_coverage(pid):
     """Lines of the property's anchor files reached by this run's workers (one-shot
     sys.monitoring LINE events), as {file: {reached, total}}."""
@@ -237,7 +245,7 @@ def main_check(pid, tier, replay=None, out=print):
             "known_findings_hit": sorted(known_hit),
             "inconclusive_cases": inconclusive_cases,
             "cases": len(cases),
-            "anchor_lines": anchor_coverage(pid),
+            "anchor_lines": (dump_coverage(), anchor_coverage(pid))[1],
             "explanation": getattr(mod, "EXPLANATION", ""),
             "exhaustive": bool(getattr(mod, "EXHAUSTIVE", {}).get(tier, False)),
             "verdict": "violated" if unlisted else ("inconclusive" if reasons else "held"),
